@@ -433,9 +433,9 @@ private def exD : Durable :=
   { curTerm := 2, voteTerm := 0, voteCand := none, log := exLog, low := 1, high := 4, staged := 4,
     snaps := [⟨3, 2, 0, [], [11, 12, 13], true⟩, ⟨1, 1, 0, [], [11], true⟩] }
 
-example : ((restart ⟨false, true, 3, 4⟩ exD).map (fun r => (r.1.applied, r.1.snapIdx, r.2))) =
+example : ((restart ⟨false, true, 3, 4, false⟩ exD).map (fun r => (r.1.applied, r.1.snapIdx, r.2))) =
     some (4, 3, [.restore [11, 12, 13], .apply 4 2 14]) := by decide
-example : ((restart ⟨false, true, 3, 4⟩ { exD with snaps := damageNewest exD.snaps }).map
+example : ((restart ⟨false, true, 3, 4, false⟩ { exD with snaps := damageNewest exD.snaps }).map
       (fun r => (r.1.applied, r.1.snapIdx, r.2))) =
     some (4, 1, [.restore [11], .apply 2 1 12, .apply 3 2 13, .apply 4 2 14]) := by decide
 
